@@ -4,9 +4,18 @@ Extract/C04x.vos Extract/C04x.vok Extract/C04x.required_vos: Extract/C04x.v Mode
 Extract/C06x.vo Extract/C06x.glob Extract/C06x.v.beautified Extract/C06x.required_vo: Extract/C06x.v Model/Sched.vo Spec/C06Judge.vo
 Extract/C06x.vio: Extract/C06x.v Model/Sched.vio Spec/C06Judge.vio
 Extract/C06x.vos Extract/C06x.vok Extract/C06x.required_vos: Extract/C06x.v Model/Sched.vos Spec/C06Judge.vos
+Extract/C07x.vo Extract/C07x.glob Extract/C07x.v.beautified Extract/C07x.required_vo: Extract/C07x.v Model/Io.vo Model/Cycle.vo Spec/C07Judge.vo
+Extract/C07x.vio: Extract/C07x.v Model/Io.vio Model/Cycle.vio Spec/C07Judge.vio
+Extract/C07x.vos Extract/C07x.vok Extract/C07x.required_vos: Extract/C07x.v Model/Io.vos Model/Cycle.vos Spec/C07Judge.vos
+Model/Cycle.vo Model/Cycle.glob Model/Cycle.v.beautified Model/Cycle.required_vo: Model/Cycle.v Model/Io.vo
+Model/Cycle.vio: Model/Cycle.v Model/Io.vio
+Model/Cycle.vos Model/Cycle.vok Model/Cycle.required_vos: Model/Cycle.v Model/Io.vos
 Model/Fb.vo Model/Fb.glob Model/Fb.v.beautified Model/Fb.required_vo: Model/Fb.v 
 Model/Fb.vio: Model/Fb.v 
 Model/Fb.vos Model/Fb.vok Model/Fb.required_vos: Model/Fb.v 
+Model/Io.vo Model/Io.glob Model/Io.v.beautified Model/Io.required_vo: Model/Io.v 
+Model/Io.vio: Model/Io.v 
+Model/Io.vos Model/Io.vok Model/Io.required_vos: Model/Io.v 
 Model/Sched.vo Model/Sched.glob Model/Sched.v.beautified Model/Sched.required_vo: Model/Sched.v 
 Model/Sched.vio: Model/Sched.v 
 Model/Sched.vos Model/Sched.vok Model/Sched.required_vos: Model/Sched.v 
@@ -16,12 +25,24 @@ Proofs/C04Proofs.vos Proofs/C04Proofs.vok Proofs/C04Proofs.required_vos: Proofs/
 Proofs/C06Proofs.vo Proofs/C06Proofs.glob Proofs/C06Proofs.v.beautified Proofs/C06Proofs.required_vo: Proofs/C06Proofs.v Model/Sched.vo Spec/C06.vo
 Proofs/C06Proofs.vio: Proofs/C06Proofs.v Model/Sched.vio Spec/C06.vio
 Proofs/C06Proofs.vos Proofs/C06Proofs.vok Proofs/C06Proofs.required_vos: Proofs/C06Proofs.v Model/Sched.vos Spec/C06.vos
+Proofs/CycleProofs.vo Proofs/CycleProofs.glob Proofs/CycleProofs.v.beautified Proofs/CycleProofs.required_vo: Proofs/CycleProofs.v Model/Io.vo Model/Cycle.vo Proofs/IoProofs.vo
+Proofs/CycleProofs.vio: Proofs/CycleProofs.v Model/Io.vio Model/Cycle.vio Proofs/IoProofs.vio
+Proofs/CycleProofs.vos Proofs/CycleProofs.vok Proofs/CycleProofs.required_vos: Proofs/CycleProofs.v Model/Io.vos Model/Cycle.vos Proofs/IoProofs.vos
+Proofs/IoProofs.vo Proofs/IoProofs.glob Proofs/IoProofs.v.beautified Proofs/IoProofs.required_vo: Proofs/IoProofs.v Model/Io.vo
+Proofs/IoProofs.vio: Proofs/IoProofs.v Model/Io.vio
+Proofs/IoProofs.vos Proofs/IoProofs.vok Proofs/IoProofs.required_vos: Proofs/IoProofs.v Model/Io.vos
 Properties/C04.vo Properties/C04.glob Properties/C04.v.beautified Properties/C04.required_vo: Properties/C04.v Model/Fb.vo Spec/C04.vo Proofs/C04Proofs.vo
 Properties/C04.vio: Properties/C04.v Model/Fb.vio Spec/C04.vio Proofs/C04Proofs.vio
 Properties/C04.vos Properties/C04.vok Properties/C04.required_vos: Properties/C04.v Model/Fb.vos Spec/C04.vos Proofs/C04Proofs.vos
 Properties/C06.vo Properties/C06.glob Properties/C06.v.beautified Properties/C06.required_vo: Properties/C06.v Model/Sched.vo Spec/C06.vo Proofs/C06Proofs.vo
 Properties/C06.vio: Properties/C06.v Model/Sched.vio Spec/C06.vio Proofs/C06Proofs.vio
 Properties/C06.vos Properties/C06.vok Properties/C06.required_vos: Properties/C06.v Model/Sched.vos Spec/C06.vos Proofs/C06Proofs.vos
+Properties/C07.vo Properties/C07.glob Properties/C07.v.beautified Properties/C07.required_vo: Properties/C07.v Model/Io.vo Model/Cycle.vo Proofs/IoProofs.vo Proofs/CycleProofs.vo
+Properties/C07.vio: Properties/C07.v Model/Io.vio Model/Cycle.vio Proofs/IoProofs.vio Proofs/CycleProofs.vio
+Properties/C07.vos Properties/C07.vok Properties/C07.required_vos: Properties/C07.v Model/Io.vos Model/Cycle.vos Proofs/IoProofs.vos Proofs/CycleProofs.vos
+Properties/C08.vo Properties/C08.glob Properties/C08.v.beautified Properties/C08.required_vo: Properties/C08.v Model/Io.vo Model/Cycle.vo Proofs/IoProofs.vo Proofs/CycleProofs.vo
+Properties/C08.vio: Properties/C08.v Model/Io.vio Model/Cycle.vio Proofs/IoProofs.vio Proofs/CycleProofs.vio
+Properties/C08.vos Properties/C08.vok Properties/C08.required_vos: Properties/C08.v Model/Io.vos Model/Cycle.vos Proofs/IoProofs.vos Proofs/CycleProofs.vos
 Spec/C04.vo Spec/C04.glob Spec/C04.v.beautified Spec/C04.required_vo: Spec/C04.v 
 Spec/C04.vio: Spec/C04.v 
 Spec/C04.vos Spec/C04.vok Spec/C04.required_vos: Spec/C04.v 
@@ -34,3 +55,6 @@ Spec/C06.vos Spec/C06.vok Spec/C06.required_vos: Spec/C06.v
 Spec/C06Judge.vo Spec/C06Judge.glob Spec/C06Judge.v.beautified Spec/C06Judge.required_vo: Spec/C06Judge.v 
 Spec/C06Judge.vio: Spec/C06Judge.v 
 Spec/C06Judge.vos Spec/C06Judge.vok Spec/C06Judge.required_vos: Spec/C06Judge.v 
+Spec/C07Judge.vo Spec/C07Judge.glob Spec/C07Judge.v.beautified Spec/C07Judge.required_vo: Spec/C07Judge.v Model/Io.vo Model/Cycle.vo
+Spec/C07Judge.vio: Spec/C07Judge.v Model/Io.vio Model/Cycle.vio
+Spec/C07Judge.vos Spec/C07Judge.vok Spec/C07Judge.required_vos: Spec/C07Judge.v Model/Io.vos Model/Cycle.vos
